@@ -117,6 +117,37 @@ JWL_TABLE = {
 }
 
 
+def _wave_fn(p, pK, rK, gK):
+    """Textbook pressure function f_K(p) of the exact Riemann solver (Toro): shock branch for p > p_K, rarefaction otherwise."""
+    aK = math.sqrt(gK * pK / rK)
+    if p > pK:
+        return (p - pK) * math.sqrt((2.0 / ((gK + 1.0) * rK)) / (p + (gK - 1.0) / (gK + 1.0) * pK))
+    return 2.0 * aK / (gK - 1.0) * ((p / pK) ** ((gK - 1.0) / (2.0 * gK)) - 1.0)
+
+
+def _boundary_problems():
+    """States that straddle each boundary of the wave-pattern classification: the velocity difference at which the star
+    pressure equals p_left (the left wave switches between rarefaction and shock) or p_right (the right wave switches),
+    computed from the textbook wave functions, +- 5 % of the sound-speed scale -- 'one input on each side of every
+    code-visible branch', for equal and unequal gammas (added after the seeded change S2-C07-1, a classification threshold
+    that used the wrong side's gamma: the fixed velocity lattice {0, +-0.3, +-1.5} never came near the boundary)."""
+    out = {}
+    for (pr, rr) in ((0.1, 0.125), (0.1, 1.0)):
+        for (gl, gr) in ((1.4, 1.4), (1.4, G53), (2.0, 1.4), (3.0, 1.2)):
+            for ul in (0.0, 0.4):
+                pl, rl = 1.0, 1.0
+                al, ar = math.sqrt(gl * pl / rl), math.sqrt(gr * pr / rr)
+                bnds = {"pstar=pl": -_wave_fn(pl, pr, rr, gr), "pstar=pr": -_wave_fn(pr, pl, rl, gl)}
+                for bname, du in bnds.items():
+                    for side, eps in (("below", -0.05), ("above", 0.05)):
+                        nm = "bnd|%s|%s|pr%g|rr%g|gl%.3g|gr%.3g|ul%g" % (bname, side, pr, rr, gl, gr, ul)
+                        out[nm] = dict(rl=rl, ul=ul, pl=pl, gl=gl, rr=rr, ur=ul + du + eps * (al + ar), pr=pr, gr=gr, xd0=0.5, t=0.1)
+    return out
+
+
+BND_TABLE = _boundary_problems()
+
+
 def riemann_mirror(c):
     """Mirror image of a Riemann problem about the window centre (used for alphabets and by C09)."""
     m = dict(c)
@@ -141,7 +172,7 @@ def _riemann_cfg(cfg):
     c.update({k: v for k, v in cfg.items() if not k.startswith("_")})
     prob = c.pop("problem_name", None)
     if prob:
-        tab = dict(RIEMANN_TABLE.get(prob) or JWL_TABLE[prob])
+        tab = dict(RIEMANN_TABLE.get(prob) or BND_TABLE.get(prob) or JWL_TABLE[prob])
         tab.pop("t")
         c.update(tab)
     if c.pop("mirror", False):
@@ -160,7 +191,7 @@ def riemann_build(path, extra):
 def riemann_times(cfg):
     prob = cfg.get("problem_name")
     if prob:
-        t = (RIEMANN_TABLE.get(prob) or JWL_TABLE[prob])["t"]
+        t = (RIEMANN_TABLE.get(prob) or BND_TABLE.get(prob) or JWL_TABLE[prob])["t"]
         return [0.5 * t, t]
     return [0.05, 0.2]
 
@@ -257,6 +288,12 @@ def _register():
             times=riemann_times, domain=riemann_domain, eos="riemann", build=riemann_build(path, extra),
             cost=cost, njumps=6, scan=1025, gamma=lambda c: None, maxK=2, quickK=2,
             **({"cell": geneos_cell, "tol": 3e-3} if nm == "GenEOS" else {})))
+    # ideal-gas solver only (4 ms per call): the states that straddle the pattern-classification boundaries
+    _p = "riemann.ep_riemann.IGEOS_Solver"
+    FAMILIES.append(fam(
+        "IGEOS_bnd", _p, {"problem_name": list(BND_TABLE), "mirror": [False, True]},
+        times=riemann_times, domain=riemann_domain, eos="riemann", build=riemann_build(_p, {}),
+        cost="cheap", njumps=6, scan=1025, gamma=lambda c: None, maxK=2, quickK=2))
     FAMILIES.append(fam(
         "EHEP", "ehep.ehep.EscapeOfHEProducts",
         {"D": [0.85, 0.6], "rho_0": [1.6, 2.0], "up": [0.05, 0.0, 0.12], "xtilde": [1.0, 2.5], "gamma": [3.0]},
